@@ -386,7 +386,8 @@ def run_check(prop_id, legs, level="exploration", tier=None, assumptions=None, e
     for bucket in sorted(failures):
         leg_name, case, detail = failures[bucket]
         leg = legs_by_name[leg_name]
-        small, d2, steps = minimise(leg, case, bucket, budget_s=25.0 if tier == "quick" else 60.0)
+        small, d2, steps = minimise(leg, case, bucket, budget_s=(min(25.0, 75.0 / len(failures)) if tier == "quick"
+                                                                 else min(60.0, 300.0 / len(failures))))
         if d2 is not None:
             detail = d2
         os.makedirs(replay_dir, exist_ok=True)
